@@ -2,7 +2,7 @@
 
 use crate::async_vfs::{AsyncFileSystem, AsyncVfsPath, SeekAndRead};
 use crate::error::VfsErrorKind;
-use crate::{VfsMetadata, VfsResult};
+use crate::{VfsFileType, VfsMetadata, VfsResult};
 
 use async_std::io::Write;
 use async_trait::async_trait;
@@ -120,6 +120,13 @@ impl AsyncFileSystem for AsyncOverlayFS {
 
     async fn create_dir(&self, path: &str) -> VfsResult<()> {
         self.ensure_has_parent(path).await?;
+        if self.exists(path).await? {
+            // the entry may exist only in a lower layer, where the write layer cannot see it
+            return match self.read_path(path).await?.metadata().await?.file_type {
+                VfsFileType::File => Err(VfsErrorKind::FileExists.into()),
+                VfsFileType::Directory => Err(VfsErrorKind::DirectoryExists.into()),
+            };
+        }
         self.write_path(path)?.create_dir().await?;
         let whiteout_path = self.whiteout_path(path)?;
         if whiteout_path.exists().await? {
@@ -134,6 +141,11 @@ impl AsyncFileSystem for AsyncOverlayFS {
 
     async fn create_file(&self, path: &str) -> VfsResult<Box<dyn Write + Send + Unpin>> {
         self.ensure_has_parent(path).await?;
+        if self.exists(path).await?
+            && self.read_path(path).await?.metadata().await?.file_type == VfsFileType::Directory
+        {
+            return Err(VfsErrorKind::Other("Path is a directory".into()).into());
+        }
         let result = self.write_path(path)?.create_file().await?;
         let whiteout_path = self.whiteout_path(path)?;
         if whiteout_path.exists().await? {
